@@ -63,7 +63,8 @@ func relative(from uintptr, to uintptr) bool {
 	}
 
 	// 跨度大于2G 时
-	relative := delta <= 0x7fffffff
+	// the rel32 displacement is measured from the end of the 5-byte jmp: to-from-5 must fit in int32
+	relative := delta <= 0x7fffffff-4
 
 	if delta < 0 {
 		delta = -delta
